@@ -1,6 +1,7 @@
 // FAMILY(ilu, "C15 gsisx over drop rules x tolerances x fill x norm x MILU x RowPerm x Trans x orderings")
 #include "putil.h"
 #include "gk_util.h"
+#include "ilu_events.h"
 #define FAMILY_INC "fam_ilu.inc"
 #include "all_prec.h"
 void fam_ilu(ctx_t *c) {
